@@ -646,8 +646,13 @@ func driveIndex(c Case, ms []evModel) *hx.Failure {
 				return hx.Failf("match-extra:"+why, "RuleIndex.Match(%s) returned rule %s whose %s does not match\n  rules: %s", evStr(e), r.Name, why, rulesStr(c))
 			}
 		}
-		for name := range count {
-			return hx.Failf("match-unknown-rule", "RuleIndex.Match(%s) returned a rule named %q which was never added", evStr(e), name)
+		if len(count) > 0 {
+			var unknown []string
+			for name := range count {
+				unknown = append(unknown, name)
+			}
+			sort.Strings(unknown)
+			return hx.Failf("match-unknown-rule", "RuleIndex.Match(%s) returned rules which were never added: %q", evStr(e), unknown)
 		}
 		var trig bool
 		if f := hx.Guard(func() { trig = idx.IsTriggering(ev) }); f != nil {
@@ -744,9 +749,9 @@ func compareFired(route string, c Case, e EventC, m evModel, got []string) *hx.F
 	for _, n := range got {
 		count[n]++
 	}
-	for n, k := range count {
-		if k > 1 {
-			return hx.Failf("fired-twice:"+route, "[%s] rule %s ran %d times for event %s\n  rules: %s", route, n, k, evStr(e), rulesStr(c))
+	for _, r := range c.Rules {
+		if k := count[r.Name]; k > 1 {
+			return hx.Failf("fired-twice:"+route, "[%s] rule %s ran %d times for event %s\n  rules: %s", route, r.Name, k, evStr(e), rulesStr(c))
 		}
 	}
 	if m.uncertain {
